@@ -26,6 +26,14 @@ Oracles (none of them looks at the code under test):
   that says ``paste_ok`` (and ``read_shrink == 1``) must be copyable (``src[roi_src]`` and ``dst[roi_dst]`` of
   equal shape) and the copy must equal the nearest-neighbour warp; with ``read_shrink > 1`` the scaled-ROI
   relation must hold.  A plan that says ``paste_ok=False`` claims nothing here.
+* tolerance-window edges (``window-edges`` slice): scales ``n*(1 +- f*stol)``, ``n +- f*stol`` (n = 1,2,3) and the
+  reciprocal forms ``(1/n)*(1 +- f*stol)``, ``1/n +- f*stol`` (n = 2,3), residues ``+-f*ttol``, for
+  f in {0.5, 0.9, 0.999, 0.9995, 1.0005, 1.001, 1.1} - both sides of both edges of every window - on source
+  axes of 13, 14, 64, 1000 (and 2000) pixels with the destination overhanging the far edge / the near edge /
+  both / contained.  Eligibility is only demanded where the absolute and the relative reading of ``stol`` agree.
+  The image clause is the literal one; a finding key carries ``drift-ge-half-px`` when the construction itself
+  moves some destination pixel centre by >= 0.45 source pixel (|s/n-1| * dst length + |residue|): there the
+  tolerance the caller asked for is larger than what pixel identity can absorb.
 """
 from __future__ import annotations
 
@@ -131,17 +139,67 @@ def residue(spec, ttol):
     kind, v = spec
     r = v * ttol if kind == "t" else v
     # harness sanity: the alphabet must stay clear of the tolerance and of the half-pixel wrap
-    assert abs(r) <= 0.5 and (r == 0 or abs(abs(r) - ttol) >= 0.019 * ttol), (spec, ttol)
+    assert abs(r) <= 0.5 and (r == 0 or abs(abs(r) - ttol) >= 4e-4 * ttol), (spec, ttol)
     return r
 
 
+EDGE_F = (0.5, 0.9, 0.999, 0.9995, 1.0005, 1.001, 1.1)
+
+
 def scale_value(spec, stol):
-    """spec: (k, dev) or ("f", literal) -> (value, integer k or None, within tolerance?)"""
-    k, dev = spec
-    if k == "f":
-        return float(dev), None, False
-    d = {"0": 0.0, "+i": 0.5 * stol, "-i": -0.5 * stol, "+o": 1.5 * k * stol, "-o": -1.5 * k * stol}[dev]
-    return k + d, k, dev in DEVS_IN
+    """-> (value, integer k or None, status): status True = within stol under both the absolute (|s-k| < stol) and the
+    relative (|s/k-1| < stol) reading, False = outside under both, None = the readings disagree (nothing demanded).
+
+    spec: (k, dev)            dev in "0", "+i", "-i", "+o", "-o"
+          ("f", literal)      fractional literal
+          ("m", n, sgn, f)    n * (1 + sgn*f*stol)          ("a", n, sgn, f)   n + sgn*f*stol
+          ("rm", n, sgn, f)   (1/n) * (1 + sgn*f*stol)      ("ra", n, sgn, f)  1/n + sgn*f*stol      (fractional)
+          ("e", n, rel)       n * (1 + rel)                 explicit relative deviation
+    """
+    kind = spec[0]
+    if kind == "f":
+        return float(spec[1]), None, False
+    if isinstance(kind, int):
+        k, dev = spec
+        d = {"0": 0.0, "+i": 0.5 * stol, "-i": -0.5 * stol, "+o": 1.5 * k * stol, "-o": -1.5 * k * stol}[dev]
+        return k + d, k, dev in DEVS_IN
+    n = spec[1]
+    if kind in ("rm", "ra"):
+        d = spec[2] * spec[3] * stol
+        return ((1.0 / n) * (1 + d) if kind == "rm" else 1.0 / n + d), None, False
+    if kind == "m":
+        v = n * (1 + spec[2] * spec[3] * stol)
+    elif kind == "a":
+        v = n + spec[2] * spec[3] * stol
+    elif kind == "e":
+        v = n * (1 + spec[2])
+    else:
+        raise ValueError(spec)
+    dev_abs = abs(v - n)
+    dev_rel = dev_abs / n
+    if dev_abs <= stol * (1 - 4e-4):  # n >= 1: then the relative deviation is inside as well
+        status = True
+    elif dev_rel >= stol * (1 + 4e-4):  # then the absolute deviation is outside as well
+        status = False
+    else:
+        status = None  # the readings disagree, or the value sits on the edge of one of them: nothing is demanded
+    return v, n, status
+
+
+_RAMPS = {}
+
+
+def raster(dt, shape):
+    """(array, nodata for the warp, fill of the expected image, junk the destination starts with)"""
+    if tuple(shape) == SRC_SHAPE:
+        return RASTERS[dt]
+    assert dt == "int16", dt
+    a = _RAMPS.get(shape)
+    if a is None:
+        n = shape[0] * shape[1]
+        assert n <= 20000
+        a = _RAMPS[shape] = (np.arange(n) - 30000).astype("int16").reshape(shape)  # distinct, all < nodata
+    return a, -9999, -9999, 7
 
 
 def build(case):
@@ -149,6 +207,7 @@ def build(case):
     grid, crsv, dshape, sxs, sys_, mirror, rot, shift, res, tol = case[:10]
     ttol, stol = TOLS[tol]
     S, crs_s = GRIDS[grid]
+    src_shape = tuple(case[12]) if len(case) > 12 else SRC_SHAPE
     ny, nx = dshape
     mx, my = mirror
     sx, kx, okx = scale_value(sxs, stol)
@@ -188,18 +247,22 @@ def build(case):
         reason = "scale-fractional"
     elif kx != ky:
         reason = "scale-anisotropic"
-    elif not (okx and oky):
+    elif okx is False or oky is False:
         reason = "scale-off-integer"
     elif not (abs(rx) < ttol and abs(ry) < ttol):
         reason = "subpixel-" + ("x" if abs(rx) >= ttol else "") + ("y" if abs(ry) >= ttol else "")
     else:
         reason = None
 
-    src_g = GeoBox(SRC_SHAPE, S, _crs(crs_s))
+    # largest displacement of a destination pixel centre (in overview pixels) that the construction itself contains
+    drift = 0.0
+    if reason is None:
+        drift = max(abs(sx / kx - 1) * nx + abs(rx), abs(sy / ky - 1) * ny + abs(ry))
+    src_g = GeoBox(src_shape, S, _crs(crs_s))
     dst_g = GeoBox(dshape, S * A, _crs(crs_d))
     kw = {} if tol == 0 else {"ttol": ttol, "stol": stol}
     optcls = None
-    if len(case) > 11:
+    if len(case) > 11 and case[11] != (None, None):
         pad, al = case[11]
         if pad is not None:
             kw["padding"] = pad
@@ -209,7 +272,8 @@ def build(case):
     return dict(src_g=src_g, dst_g=dst_g, A=A, kw=kw, reason=reason, mx=mx, my=my, Tx=Tx, Ty=Ty,
                 k=kx if (kx is not None and kx == ky) else None, ttol=ttol, stol=stol, rot=rot,
                 exact=(res == (("t", 0.0), ("t", 0.0)) and sxs[1] == "0" and sys_[1] == "0"),
-                scale_dev=(sxs[1] != "0" or sys_[1] != "0"), optcls=optcls)
+                scale_dev=(sxs[1] != "0" or sys_[1] != "0"), optcls=optcls, src_shape=src_shape,
+                ambiguous=(reason is None and (okx is None or oky is None)), drift=drift)
 
 
 def _sl(roi):
@@ -226,7 +290,7 @@ def _placement(roi_dst, dshape):
 
 
 def describe(case, b, rr=None):
-    s = (f"src=GeoBox({SRC_SHAPE}, {tuple(b['src_g'].transform)[:6]}, {b['src_g'].crs!s:.20}) "
+    s = (f"src=GeoBox({b['src_shape']}, {tuple(b['src_g'].transform)[:6]}, {b['src_g'].crs!s:.20}) "
          f"dst=GeoBox({b['dst_g'].shape.yx}, src.affine*Affine{tuple(b['A'])[:6]}) kwargs={b['kw']} case={case!r}")
     if rr is not None:
         s += f" -> paste_ok={rr.paste_ok} read_shrink={rr.read_shrink} roi_src={_sl(rr.roi_src)} roi_dst={_sl(rr.roi_dst)}"
@@ -249,17 +313,19 @@ def run_case(case):
     optcls = b["optcls"]
     osfx = "" if optcls is None else ":" + optcls
     ogrp = ""
-    if optcls is not None:
+    if len(case) > 12:
+        ogrp = "|" + edge_class(case)
+    elif optcls is not None:
         pad, al = case[11]
         ogrp = "|opt-" + ("+".join(n for n, v in (("padded", pad), ("aligned", al)) if v) or "tight")
     r = R(
-        outcome=f"{'paste' if paste else 'no-paste'}|{reason or 'eligible'}|shrink{min(int(rs), 4)}|{place}{ogrp}",
+        outcome=f"{'paste' if paste else 'no-paste'}|{reason or ('ambiguous' if b['ambiguous'] else 'eligible')}|shrink{min(int(rs), 4)}|{place}{ogrp}",
         nontrivial=(reason is not None) or (paste and place != "disjoint"),
     )
     if not paste:
-        if reason is None:
-            r.counts = {("eligible-but-not-reported" if ogrp in ("", "|opt-tight") else
-                         "paste-not-offered-under-padding-or-align"): 1}
+        if reason is None and not b["ambiguous"]:
+            r.counts = {("paste-not-offered-under-padding-or-align" if ogrp.startswith("|opt-") and ogrp != "|opt-tight"
+                         else "eligible-but-not-reported"): 1}
         return r
 
     # ---- clause 3: reported only for eligible pairs -------------------------------------------
@@ -274,7 +340,7 @@ def run_case(case):
 
     # ---- clause 1: paste == nearest-neighbour warp when read_shrink == 1 -------------------------
     if rs == 1:
-        src, nodata, fill, junk = RASTERS[dt]
+        src, nodata, fill, junk = raster(dt, b["src_shape"])
         expect = np.full(dshape, fill, dtype=src.dtype)
         block = src[rr.roi_src]
         if b["my"] < 0:
@@ -282,6 +348,7 @@ def run_case(case):
         if b["mx"] < 0:
             block = block[:, ::-1]
         cls = "exact" if b["exact"] else ("scale-dev" if b["scale_dev"] else "residue")
+        dsfx = ":drift-ge-half-px" if b["drift"] >= 0.45 else ""
         if block.shape != expect[rr.roi_dst].shape:
             r.fail(f"paste:shape-mismatch:mirror-{mname}:{cls}" if optcls is None else
                    f"paste:roi-shape-mismatch:mirror-{mname}:{optcls}",
@@ -296,9 +363,10 @@ def run_case(case):
             np.array_equal(got, expect, equal_nan=True) if got.dtype.kind == "f" else np.array_equal(got, expect))
         if not same:
             nbad = int((~((got == expect) | ((got != got) & (expect != expect)))).sum()) if got.shape == expect.shape else -1
-            r.fail(f"paste!=warp:{dt}:mirror-{mname}:{cls}:{place}{osfx}",
-                   f"{nbad} of {expect.size} pixels differ; paste={expect.tolist()} warp={got.tolist()}: "
-                   + describe(case, b, rr))
+            big = expect.size > 200
+            r.fail(f"paste!=warp:{dt}:mirror-{mname}:{cls}:{place}{osfx}{dsfx}",
+                   f"{nbad} of {expect.size} pixels differ (constructed drift {b['drift']:.4f} px); "
+                   + ("" if big else f"paste={expect.tolist()} warp={got.tolist()}: ") + describe(case, b, rr))
         return r
 
     # ---- clause 2: read_shrink > 1 -> roi_src == roi_dst scaled by read_shrink ---------------------
@@ -321,12 +389,13 @@ def run_case(case):
     got = ((sy0, sy1), (sx0, sx1))
     if got != want:
         shp_ok = (sy1 - sy0, sx1 - sx0) == (rs * (dy1 - dy0), rs * (dx1 - dx0))
-        over = sy1 > SRC_SHAPE[0] or sx1 > SRC_SHAPE[1] or want[0][1] > SRC_SHAPE[0] or want[1][1] > SRC_SHAPE[1]
+        SH = b["src_shape"]
+        over = sy1 > SH[0] or sx1 > SH[1] or want[0][1] > SH[0] or want[1][1] > SH[1]
         r.fail(f"shrink-roi:{'position' if shp_ok else 'shape'}:mirror-{mname}:"
                f"{'past-src-edge' if over else 'inside-src'}{osfx}",
                f"roi_src={got} but roi_dst scaled by read_shrink={rs} (whole-pixel map x_ov = m*x_dst + T, "
                f"T=({b['Tx']},{b['Ty']})) is {want}: " + describe(case, b, rr))
-    elif sy1 > SRC_SHAPE[0] or sx1 > SRC_SHAPE[1]:
+    elif sy1 > b["src_shape"][0] or sx1 > b["src_shape"][1]:
         r.counts = {"shrink-roi-extends-past-source": 1}
     if b["k"] is not None and rs != b["k"]:
         r.counts = dict(r.counts, **{"read_shrink-differs-from-k": 1})
@@ -457,6 +526,86 @@ def space(tier):
     return sp
 
 
+# ---- tolerance-window edges ---------------------------------------------------------------------
+EDGE_N = (13, 14, 64, 1000)
+OTHER_LEN = 6  # source length of the short axis (multiple of 2 and 3); the destination has 3 pixels there
+PLACES = ("far1", "far", "near", "both", "contained", "exact")
+
+
+def place(name, no):
+    """(whole-pixel shift T, dst length) in overview pixels for an overview (source / n) of `no` pixels"""
+    return {
+        "far1": (0, no + 1),  # dst starts with the source and reaches 1 px past its far edge
+        "far": (no // 3, no),  # starts inside, overhangs the far edge
+        "near": (-(no // 3), no),  # overhangs the near edge, ends inside
+        "both": (-2, no + 4),
+        "contained": (2, max(1, no - 4)),
+        "exact": (0, no),
+    }[name]
+
+
+def edge_scales(forms=True):
+    out = []
+    for sgn in (-1, 1):
+        for f in EDGE_F:
+            out.append(("a", 1, sgn, f))  # for n = 1 the multiplicative and the additive form coincide
+            for n in (2, 3):
+                out += [("m", n, sgn, f), ("a", n, sgn, f)]
+                if forms:
+                    out += [("rm", n, sgn, f), ("ra", n, sgn, f)]
+    return tuple(out)
+
+
+def edge_class(case):
+    """coarse label of where the case sits relative to the window edge (outcome label only)"""
+    fs = [abs(sp[3]) for sp in (case[3], case[4]) if sp[0] in ("m", "a", "rm", "ra")]
+    fs += [abs(r[1]) for r in case[8] if r[0] == "t" and r[1] != 0]
+    d = min((abs(f - 1) for f in fs), default=1.0)
+    return "edge<=0.1%" if d <= 0.0011 else ("edge<=10%" if d <= 0.11 else "clear")
+
+
+def _edge_case(axis, n_long, lspec, ospec, m, pl, rl, ro, tol):
+    n = lspec[1] if lspec[0] in ("m", "a", "e") else (lspec[0] if isinstance(lspec[0], int) else 1)
+    no = -(-n_long // n)
+    T, nd = place(pl, no)
+    if axis == "x":
+        return ("D-utm10", "same", (3, nd), lspec, ospec, (m, 1), "none", (T, 0), (rl, ro), tol, "int16", (None, None),
+                (OTHER_LEN, n_long))
+    return ("D-utm10", "same", (nd, 3), ospec, lspec, (1, m), "none", (0, T), (ro, rl), tol, "int16", (None, None),
+            (n_long, OTHER_LEN))
+
+
+def gen_edges(tier):
+    th = tier == "thorough"
+    axes = ("x", "y")
+    Z = ("t", 0.0)
+
+    def gen():
+        # (1) scale on either side of both edges of the stol window (both axes / long axis only)
+        for axis, N, sp, iso, m, pl, r, tol in itertools.product(
+            axes, EDGE_N, edge_scales(), (True, False), (1, -1), PLACES, (Z, ("t", 0.9)) + ((("t", -0.9),) if th else ()),
+            (0, 2),
+        ):
+            if iso:
+                osp = sp
+            else:  # other axis at the exact scale of the same family
+                osp = (sp[1], "0") if sp[0] in ("m", "a") else ("f", 1.0 / sp[1])
+            yield _edge_case(axis, N, sp, osp, m, pl, r, r, tol)
+        # (2) residue on either side of both edges of the ttol window (long axis; other axis exact)
+        for axis, N, sp, sgn, f, m, pl, tol in itertools.product(
+            axes, EDGE_N, ((1, "0"), (2, "0"), ("a", 1, -1, 0.9995), ("a", 1, 1, 0.9995)), (-1, 1), EDGE_F, (1, -1), PLACES, (0, 1),
+        ):
+            yield _edge_case(axis, N, sp, sp, m, pl, ("t", sgn * f), Z, tol)
+        # (3) a 2000 px axis with a scale deviation far below the tolerance (5e-7 * 2000 = 1e-3 px: invisible in the
+        #     image, but an un-snapped scale crosses a whole-pixel boundary in the overlap arithmetic)
+        for axis, n, e, m, pl, r, tol in itertools.product(
+            axes, (1, 2), (-2e-5, -5e-7, 5e-7, 2e-5), (1, -1), PLACES, (Z, ("t", 0.9), ("t", -0.9)), (0, 2),
+        ):
+            yield _edge_case(axis, 2000, ("e", n, e), ("e", n, e), m, pl, r, r, tol)
+
+    return gen
+
+
 def _gen(products):
     def gen():
         for s in products:
@@ -486,6 +635,9 @@ NOTES = {
     "paste-options": "padding {None,0,1,2} x align {None,0,1,2,4} x (scale 1: every placement along x / along y x 3 cross "
                      "shifts, dst smaller and larger than src; scale 2: overview placements) x mirror x residues within "
                      "ttol: a plan that says paste_ok must be copyable and equal the NN warp / obey the scaled-ROI relation",
+    "window-edges": "scales n(1+-f*stol), n+-f*stol, (1/n)(1+-f*stol), 1/n+-f*stol and residues +-f*ttol for f in "
+                    "{.5,.9,.999,.9995,1.0005,1.001,1.1} x source axis 13/14/64/1000 px (x or y) x mirror x dst overhanging "
+                    "far/near/both/contained x stol 1e-3/1e-2 (ttol .05/.2); 2000 px axis with scale n(1+-5e-7), n(1+-2e-5)",
     "shrink": "integer scale 2,3,4 (read_shrink > 1), placements in overview pixels as in paste-image: "
               "roi_src == read_shrink * image(roi_dst)",
 }
@@ -493,7 +645,8 @@ NOTES = {
 
 def slices(tier):
     sp = space(tier)
-    return [e1.Slice(name, _gen(spec), run_case, NOTES[name]) for name, spec in sp.items()]
+    return [e1.Slice(name, _gen(spec), run_case, NOTES[name]) for name, spec in sp.items()] + [
+        e1.Slice("window-edges", gen_edges(tier), run_case, NOTES["window-edges"])]
 
 
 def _count(products):
@@ -525,14 +678,22 @@ def main(ctx):
                              "unit": "('t', f) = f*ttol, ('a', v) = v px; destination (= overview) pixels"},
         "scale_deviation": "0, +-0.5*stol (inside), +-1.5*k*stol (outside); literals 1.5 0.5 2.5 0.25; anisotropic pairs",
         "rotations": ROTS, "dtypes": DTYPES, "padding": PADDINGS, "align": ALIGNS,
-        "cases_per_slice": {k: _count(v) for k, v in sp.items()},
+        "cases_per_slice": dict({k: _count(v) for k, v in sp.items()},
+                                **{"window-edges": sum(1 for _ in gen_edges(ctx.tier)())}),
+        "window_edges": {"f": EDGE_F, "source_axis_px": EDGE_N + (2000,), "placements": PLACES, "other_axis": (OTHER_LEN, 3)},
     }
     ctx.assumptions = [
         "the property says paste-ability is reported ONLY for eligible pairs: eligible-but-not-reported is counted "
         "(coverage.counters), not a violation",
         "residue is measured in destination (= overview) pixels, as the code documents ('tx, ty are in dst pixel space'); "
         "outside values (>= 1.1*ttol dst px) are outside under the source-pixel reading as well",
-        "scale within stol: inside values satisfy both |s-k| < stol and |s/k-1| < stol, outside values violate both",
+        "scale within stol: inside values satisfy both |s-k| < stol and |s/k-1| < stol, outside values violate both; "
+        "window-edge values where the two readings disagree (n >= 2) are labelled 'ambiguous': no eligibility demand, the "
+        "image / scaled-ROI clauses still apply to whatever the plan says",
+        "window edges are approached to 5e-4 of the tolerance (5e-7 absolute at stol=1e-3), eight orders above the rounding "
+        "of the constructed transform (D-utm10 grid, integer entries)",
+        "image clause on long axes: it is applied literally; keys of cases whose construction displaces a destination "
+        "pixel centre by >= 0.45 px (|s/n-1|*dst length + |residue|) carry ':drift-ge-half-px'",
         "read_shrink > 1: 'roi_dst scaled by that factor' is read as the image of roi_dst under the whole-pixel "
         "overview-space map x_ov = m*x_dst + T times read_shrink, NOT clipped to the source image (when the source size "
         "is not a multiple of read_shrink the region may extend < read_shrink pixels past the source edge: counted as "
